@@ -631,9 +631,23 @@ func irExpected(h util.Uint160, method string) bool {
 }
 
 func irExec(c *runCtx, ops []string) {
+	// the ix* ops (caching indexer, C35) form stateful sequences; every other op is self-contained
 	c.independent = true
 	for _, line := range ops {
+		if strings.HasPrefix(parseOp(line).name, "ix") {
+			c.independent = false
+		}
+	}
+	var ix *ixWorld
+	for _, line := range ops {
 		o := parseOp(line)
+		if strings.HasPrefix(o.name, "ix") {
+			if ix == nil {
+				ix = newIxWorld()
+			}
+			ix.exec(c, line, o)
+			continue
+		}
 		var pend []func()
 		orc := func(a string, ok bool, d string) { pend = append(pend, func() { c.oracle(a, ok, d) }) }
 		emitObs := func(obs string) {
